@@ -63,6 +63,8 @@ def plan(tier, seed):
         shards.append(("hist", li, 3 if tier == "quick" else 4))
     for k_ in range(len(DEEP)):
         shards.append(("deep", k_))
+    for k_ in range(len(JUSTABOVE)):
+        shards.append(("justabove", k_))
     for li in (0, 3, 5):
         shards.append(("threads", li, 1 if tier == "quick" else 2))
     k = seed % len(shards)
@@ -78,6 +80,50 @@ HIST_LIMITS = (0.41, 0.63, 0.97)
 # one long axis and a high limit: Miller indices up to +-192 along it (the library documents |h| < 200)
 DEEP = [([30.0, 2.0, 2.0, 90, 90, 90], "P", 4.3), ([30.0, 2.0, 2.0, 90, 90, 90], "I", 6.4), ([2.0, 30.0, 2.2, 90, 90, 90], "P", 5.5), ([2.0, 2.0, 30.0, 90, 90, 90], "F", 6.4),
         ([2.5, 2.5, 30.0, 90, 90, 120], "P", 4.4), ([2.0, 2.3, 29.0, 80, 75, 100], "P", 6.0)]
+
+
+# the limit put just above EVERY reflection of the list in turn (1e-8 relative: far above double rounding, far below any single precision
+# shortcut); flat oblique cells (three obtuse angles adding up to nearly 360 degrees) make h.g*.h a sum of large terms of both signs
+JUSTABOVE = [([4.05, 4.05, 4.05, 90, 90, 90], "F", 1.5), ([2.95, 2.95, 4.68, 90, 90, 120], "P", 1.2), ([5.0, 5.0, 5.0, 118, 118, 118], "P", 1.5),
+             ([10.0, 12.0, 8.0, 124, 115, 119], "P", 0.8), ([10.0, 12.0, 8.0, 124, 115, 119], "I", 0.9), ([21.0, 17.0, 26.0, 121, 123, 115], "P", 0.35),
+             ([7.0, 8.0, 9.0, 70, 80, 100], "P", 0.7), ([9.0, 6.0, 11.0, 90, 124, 90], "C", 0.7)]
+
+
+def _run_justabove(desc):
+    from ImageD11 import unitcell as uc_mod
+    import io, contextlib
+    sh = Shard()
+    cell, sym, top = JUSTABOVE[desc[1]]
+    want, B = O.brute_hkls(cell, sym, top)
+    ds = np.array(sorted(set(want.values())))
+    hk = list(want.items())
+    for i, d in enumerate(ds):
+        if i and d - ds[i - 1] < 1e-9:
+            continue
+        limit = float(d * (1 + 1e-8))
+        if any(abs(x - limit) < 2e-9 * limit for x in ds[max(0, i - 3):i + 4]):
+            sh.borderline += 1
+            continue
+        sure = {h for h, x in hk if x < limit}
+        # every other object is made with verbose=1: the print-out of the intermediate results changes nothing
+        with contextlib.redirect_stdout(io.StringIO()):
+            uc = uc_mod.unitcell(cell, sym, verbose=i % 2)
+        got = {tuple(int(v) for v in p[1]): p[0] for p in uc.gethkls(limit)}
+        case = {"kind": "justabove", "index": desc[1], "cell": cell, "sym": sym, "dsmax": limit, "verbose": i % 2}
+        if set(got) != sure:
+            sh.violation("gethkls:missing-reflections" if sure - set(got) else "gethkls:unexpected-reflections", case,
+                         {"missing": sorted(sure - set(got))[:4], "extra": sorted(set(got) - sure)[:4], "below_the_limit_by": float(limit - d)})
+            break
+        Bl = np.array(uc.B, float)
+        worst = max(abs(float(np.linalg.norm(np.dot(Bl, h))) - x) for h, x in got.items())
+        if worst > 1e-9:
+            sh.violation("gethkls:ds-not-length-of-the-cell's-own-B.hkl", case, {"max_diff": worst})
+            break
+        sh.evaluations += 1
+        sh.nontrivial += 1
+    sh.outcomes.add(("justabove", desc[1]))
+    sh.sample({"kind": "justabove", "cell": cell, "sym": sym, "limits": int(sh.evaluations)}, limit=1)
+    return sh
 
 
 def _run_deep(desc):
@@ -361,6 +407,8 @@ def run_shard(desc):
         return _run_hist(desc)
     if desc[0] == "deep":
         return _run_deep(desc)
+    if desc[0] == "justabove":
+        return _run_justabove(desc)
     if desc[0] == "threads":
         return _run_threads(desc)
     _, tier, c0, c1 = desc
@@ -406,6 +454,9 @@ def replay(case):
     if case.get("kind") == "threads":
         li = [i for i, (c, s_) in enumerate(HIST_LATTICES) if c == case["cell"] and s_ == case["sym"]][0]
         r = _run_threads(("threads", li))
+        return (not r.violations), {"violations": r.violations[:2]}
+    if case.get("kind") == "justabove":
+        r = _run_justabove(("justabove", case["index"]))
         return (not r.violations), {"violations": r.violations[:2]}
     if case.get("kind") == "hist":
         li = [i for i, (c, s_) in enumerate(HIST_LATTICES) if c == case["cell"] and s_ == case["sym"]][0]
